@@ -84,16 +84,24 @@ Definition self_and_ancestors (n : node) : list node :=
   | None => n :: ancestors n
   end.
 
+(* getNodeDepth of a query without a depth() method is 0 *)
+Definition zero_item (it : item) : item := mkItem (it_node it) (it_pos it) 0.
+Definition zero_lvl (l : list item) : list item := map zero_item l.
+
 (* followingQuery, Sibling = false: for the node and then each ancestor, the
    subtrees of its later siblings; an attribute starts with the content of
-   its element.  posit is the inner descendant query's counter. *)
-Definition step_following (t : ntest) (n : node) : list item :=
+   its element.  posit is the inner descendant query's counter; the level of
+   the inner descendant query is NOT visible (only descendantQuery has a
+   depth() method, followingQuery has none), hence zero_lvl. *)
+Definition step_following_raw (t : ntest) (n : node) : list item :=
   (match nattr n with
    | Some _ => step_descendant false t (mkNode (npath n) None)
    | None => []
    end)
   ++ flat_map (fun a => flat_map (fun s => step_descendant true t s) (following_siblings D a))
               (self_and_ancestors n).
+Definition step_following (t : ntest) (n : node) : list item :=
+  zero_lvl (step_following_raw t n).
 
 (* precedingQuery, Sibling = false: for the node and then each ancestor, the
    subtrees of its earlier siblings, nearest sibling first, each subtree in
